@@ -216,6 +216,9 @@ def builtin_cases():
     c.append(("p :- atom_number('12',12).", "p", ["yes"], True))
     c.append(("p :- atom_number('12',13).", "p", [], True))
     c.append(("p :- atom_number('12',12.0).", "p", [], True))
+    c.append(("p(Y) :- functor(3,F,_), Y is F+1.", "p(Y)", ["4"], True))           # the functor of a number is the number
+    c.append(("p :- functor(3,F,A), integer(F), A == 0.", "p", ["yes"], True))
+    c.append(("p :- functor(2.5,F,0), float(F).", "p", ["yes"], True))
     c.append(("p(X) :- atom_number('2.0',X).", "p(X)", ["2.0"], True))       # the text of a float gives a float
     c.append(("p :- atom_number('2.0',2).", "p", [], True))
     c.append(("p :- atom_number('2.0',2.0).", "p", ["yes"], True))
